@@ -293,10 +293,11 @@ def random_universe(rng, ncls=None, richness=1.0):
         else:
             ar = arity if arity is not None else rng.choice([1, 1, 2, 2, 3])
             kids = [rng.randrange(n) for _ in range(ar)]
+        two_way = 1 if (sym or rng.random() < 0.6) else 0
         return {
             "children": kids,
-            "two_way": 1 if (sym or rng.random() < 0.6) else 0,
-            "reversible": 1 if rng.random() < 0.6 else 0,
+            "two_way": two_way,
+            "reversible": 1 if (two_way or rng.random() < 0.4) else 0,   # two-way rules are reversible
             "shifts": [rng.choice([0, 0, 0, 1, 1, 2, -1]) for _ in kids],
         }
 
@@ -345,6 +346,33 @@ def random_universe(rng, ncls=None, richness=1.0):
     expansion = [some(rng.choice([1, 1, 2]), lambda: plain("S") if rng.random() < 0.75 else factory())
                  for _ in range(rng.choice([0, 1, 1, 2]))]
     sym = some(rng.choice([0, 0, 0, 1, 2]), lambda: plain("Y", density=0.6))
+    # make the table honour the strategy contracts the engine relies on:
+    # a non-empty class never decomposes into empty classes only, an empty class
+    # only into empty classes, a strategy declaring possibly_empty=False has no
+    # empty child, a symmetry preserves emptiness, verified classes are non-empty
+    nonempty = [c for c in range(n) if not empty[c]] or [start]
+    empties_ = [c for c in range(n) if empty[c]]
+    for st in strats:
+        if st["kind"] == "F":
+            continue
+        for cs, e in list(st["apply"].items()):
+            c = int(cs)
+            kids = e["children"]
+            if st["kind"] == "V":
+                if empty[c]:
+                    del st["apply"][cs]
+                    continue
+                e["children"] = [k if not empty[k] else rng.choice(nonempty) for k in kids]
+                continue
+            if empty[c]:
+                e["children"] = [k if empty[k] else rng.choice(empties_) for k in kids]
+            else:
+                if st["kind"] == "Y" or not st["flags"][2]:
+                    kids = [k if not empty[k] else rng.choice(nonempty) for k in kids]
+                elif kids and all(empty[k] for k in kids):
+                    kids = list(kids)
+                    kids[rng.randrange(len(kids))] = rng.choice(nonempty)
+                e["children"] = kids
     return {
         "ncls": n,
         "empty": empty,
